@@ -222,10 +222,11 @@ Section CacheSound.
     destruct op as [t k v ttl ok | t k o]; simpl in Hc.
     - apply andb_true_iff in Hc as [Hok Hc]. apply eqb_prop in Hok. subst ok.
       simpl. eapply IH; [|exact Hc]. apply cinv_cset. exact Hinv.
-    - apply andb_true_iff in Hc as [Hget Hc].
-      assert (Hrest : cache_prop (OGet t k o :: seen) r = true) by (eapply IH; [apply cinv_get; exact Hinv | exact Hc]).
-      destruct o as [v|]; simpl; [|exact Hrest].
-      rewrite Hrest, andb_true_r.
+    - destruct o as [v|].
+      2:{ simpl. eapply IH; [apply cinv_get; exact Hinv | exact Hc]. }
+      apply andb_true_iff in Hc as [Hget Hc].
+      assert (Hrest : cache_prop (OGet t k (Some v) :: seen) r = true) by (eapply IH; [apply cinv_get; exact Hinv | exact Hc]).
+      simpl. rewrite Hrest, andb_true_r.
       unfold zopt_eqb, option_eqb in Hget. unfold cget in Hget.
       destruct (find k c) as [e|] eqn:Ef; [|discriminate].
       destruct (live b t e) eqn:El; [|discriminate].
